@@ -7,8 +7,8 @@ import (
 	"strings"
 
 	abci "github.com/cometbft/cometbft/abci/types"
-	banktypes "github.com/cosmos/cosmos-sdk/x/bank/types"
 	sdk "github.com/cosmos/cosmos-sdk/types"
+	banktypes "github.com/cosmos/cosmos-sdk/x/bank/types"
 
 	e "haqqsim/engine"
 
@@ -50,7 +50,7 @@ func (m *mixed) Configure(r *e.RNG, tier string) e.Config {
 	c.MinGasMult = []string{"0.5", "0", "1", "0.25"}[r.Intn(4)]
 	c.Elasticity = uint32(r.Range(1, 4))
 	c.ChangeDenom = uint32(r.Range(2, 50))
-	c.BlockMaxGas = []int64{-1, -1, 30_000_000, 2_000_000}[r.Intn(4)]
+	c.BlockMaxGas = []int64{-1, -1, 30_000_000, 6_000_000}[r.Intn(4)]
 	c.UnbondingSecs = []int64{5, 60, 3600, 1_814_400}[r.Intn(4)]
 	c.SlashWindow = r.Range(3, 12)
 	c.SlashDowntime = []string{"0.01", "0.0001", "0.5"}[r.Intn(3)]
@@ -99,6 +99,11 @@ func (m *mixed) Configure(r *e.RNG, tier string) e.Config {
 		c.Flags["w_join"] = r.Range(0, 1)
 	case "C20":
 		c.Replicas = 3
+		// known finding C20-002 needs a registered token pair; two thirds of the
+		// runs cannot create one, so the finding cannot mask other violations there
+		if !r.Chance(0.33) {
+			c.Flags["w_lv_liquidate"] = 0
+		}
 		c.Flags["w_crash"] = r.Range(2, 6)
 		c.Flags["w_traffic"] = r.Range(0, 2)
 	case "C15":
@@ -180,7 +185,7 @@ func (m *mixed) Gen(w *e.World, r *e.RNG) e.Step {
 	if k < len(names) {
 		st := Ops[names[k]].Gen(w, r)
 		if Ops[names[k]].Msgs != nil && int64(r.Intn(100)) < f["p_eip712"] {
-			st.Net = "eip712"
+			st.Net = []string{"eip712", "eip712d"}[r.Intn(2)]
 		}
 		return st
 	}
@@ -388,14 +393,14 @@ var queryPaths = []string{
 	"/evmos.epochs.v1.Query/EpochInfos",
 }
 
-// querySet runs a fixed set of gRPC queries through the ABCI Query interface
-// at the last committed height and returns a digest of all answers.
-func querySet(w *e.World, r *e.Replica) string {
-	h := sha256.New()
+// querySetMap runs a fixed set of gRPC queries through the ABCI Query interface
+// at the last committed height and returns one digest per query.
+func querySetMap(w *e.World, r *e.Replica) map[string]string {
+	out := map[string]string{}
 	r.DB.Phase = "traffic"
 	for _, p := range queryPaths {
 		res := r.App.Query(abci.RequestQuery{Path: p})
-		fmt.Fprintf(h, "%s|%d|%x\n", p, res.Code, res.Value)
+		out[p] = fmt.Sprintf("%d|%x", res.Code, res.Value)
 	}
 	// per-account queries
 	for i := 0; i < len(w.Accts)+e.NExtra; i++ {
@@ -403,11 +408,20 @@ func querySet(w *e.World, r *e.Replica) string {
 		req := &evmtypes.QueryAccountRequest{Address: a.Eth.Hex()}
 		bz, _ := req.Marshal()
 		res := r.App.Query(abci.RequestQuery{Path: "/ethermint.evm.v1.Query/Account", Data: bz})
-		fmt.Fprintf(h, "acct|%d|%x\n", res.Code, res.Value)
+		out[fmt.Sprintf("evm-account:%d", i)] = fmt.Sprintf("%d|%x|%s", res.Code, res.Value, trunc(res.Log, 80))
 		breq := &banktypes.QueryAllBalancesRequest{Address: a.Acc.String()}
 		bz, _ = breq.Marshal()
 		res = r.App.Query(abci.RequestQuery{Path: "/cosmos.bank.v1beta1.Query/AllBalances", Data: bz})
-		fmt.Fprintf(h, "bal|%d|%x\n", res.Code, res.Value)
+		out[fmt.Sprintf("bank-balances:%d", i)] = fmt.Sprintf("%d|%x|%s", res.Code, res.Value, trunc(res.Log, 80))
+	}
+	return out
+}
+
+func querySet(w *e.World, r *e.Replica) string {
+	m := querySetMap(w, r)
+	h := sha256.New()
+	for _, k := range e.SortedKeys(m) {
+		fmt.Fprintf(h, "%s=%s\n", k, m[k])
 	}
 	return hex.EncodeToString(h.Sum(nil)[:10])
 }
@@ -429,19 +443,15 @@ func compareQuerySets(w *e.World, i, j int) *e.Violation {
 	}
 	w.Stats.Oracle++
 	w.Stats.Probe("query_set_compared")
-	a, b := querySet(w, w.Reps[i]), querySet(w, w.Reps[j])
-	if a != b {
-		// find the first differing path for the signature
-		which := "account-queries"
-		for _, p := range queryPaths {
-			ra := w.Reps[i].App.Query(abci.RequestQuery{Path: p})
-			rb := w.Reps[j].App.Query(abci.RequestQuery{Path: p})
-			if ra.Code != rb.Code || string(ra.Value) != string(rb.Value) {
-				which = p
-				break
+	a, b := querySetMap(w, w.Reps[i]), querySetMap(w, w.Reps[j])
+	for _, k := range e.SortedKeys(a) {
+		if a[k] != b[k] {
+			name := k
+			if x := strings.Index(name, ":"); x > 0 {
+				name = name[:x]
 			}
+			return e.Violatef("restart-queries", "query-differs-after-restart:"+name, "height %d: replica %d (restarted) answers %s differently from replica %d (never stopped): %s vs %s", w.Height, j, k, i, trunc(b[k], 150), trunc(a[k], 150))
 		}
-		return e.Violatef("restart-queries", "query-differs-after-restart:"+which, "height %d: replica %d (restarted) answers %s differently from replica %d (never stopped)", w.Height, j, which, i)
 	}
 	return nil
 }
